@@ -144,6 +144,12 @@ def run(check, repo: Repo) -> None:
             restore_loops.append((lp, sets))
     check.floor("_recursive_load: restoration loops", len(restore_loops), 3)
     lcfg = CFG(lf)
+    # two defences: the per-loop name filter before each setattr, and the final `for name in skip_names: delattr(…)` sweep.  The sweep alone removes whatever a loop
+    # restored by mistake, the filters alone never restore it; a name survives only when a loop lacks its filter AND the sweep does not range over all of skip_names
+    full_sweep = any(dotted(l_.iter) == "skip_names" and any(call_name(c_) == "delattr" for c_ in calls_in(ast.Module(body=l_.body, type_ignores=[]))) for l_ in loops)
+    partial_sweep = [l_ for l_ in loops if not dotted(l_.iter) == "skip_names" and "skip_names" in unparse(l_.iter)
+                     and any(call_name(c_) == "delattr" for c_ in calls_in(ast.Module(body=l_.body, type_ignores=[])))]
+    unfiltered = []
     for lp, sets in restore_loops:
         tgt = lp.target
         keyvars = {e.id for e in (tgt.elts if isinstance(tgt, ast.Tuple) else [tgt]) if isinstance(e, ast.Name)}
@@ -154,8 +160,10 @@ def run(check, repo: Repo) -> None:
             for test, pol in lcfg.guards_of(nodes[0]) if nodes else []:
                 if not pol and any(_is_name_filter(d, keyvars, "skip_names") for d in _disjuncts(test)):
                     ok = True
-            check.decide(ok, "C14-R3", f"_recursive_load[loop over {label}]: setattr guarded by the name filter",
-                         "", mod.line(c),
+            if not ok:
+                unfiltered.append(label)
+            check.decide(ok or full_sweep, "C14-R3", f"_recursive_load[loop over {label}]: setattr guarded by the name filter",
+                         "" if ok else "no filter in this loop, but the final sweep deletes every name in skip_names", mod.line(c), definite=not ok and not full_sweep,
                          fail_detail="a setattr in this loop is reachable without the key having been tested "
                                      "against skip_names: load-time skipping leaks this kind of attribute")
     # nested objects receive the skip lists
@@ -176,8 +184,14 @@ def run(check, repo: Repo) -> None:
             fake = ast.Module(body=lp.body, type_ignores=[])
             if any(call_name(c) == "delattr" for c in calls_in(fake)):
                 sweep = lp
-    check.decide(sweep is not None, "C14-R3", "_recursive_load: final delattr sweep over skip_names", "", mod.line(lf),
-                 fail_detail="attributes named in skip that were set by other means are not removed")
+    if sweep is None and partial_sweep and not unfiltered:
+        # a sweep over a subset of the names (e.g. `skip_names - set_attrs`) is an exact no-op reduction while every restoration loop filters: what it leaves out was never set
+        check.holds("C14-R3", "_recursive_load: final delattr sweep over skip_names", f"sweep over `{unparse(partial_sweep[0].iter)[:40]}`; every restoration loop filters by name", mod.line(lf))
+        sweep = partial_sweep[0]
+    else:
+        check.decide(sweep is not None, "C14-R3", "_recursive_load: final delattr sweep over skip_names", "", mod.line(lf), definite=bool(partial_sweep and unfiltered),
+                     fail_detail="attributes named in skip that were set by other means are not removed" + (f" — the sweep ranges over `{unparse(partial_sweep[0].iter)[:40]}` only while the loop(s) "
+                                 f"over {unfiltered} restore without a name filter: a name skipped at load time comes back" if partial_sweep and unfiltered else ""))
     if sweep is not None:
         # "final": no restoration loop can run after the sweep — torch modules restore registered parameters / buffers / sub-modules
         # wholesale through the unfiltered _parameters/_buffers/_modules dicts, and only a sweep that comes afterwards removes them
